@@ -16,9 +16,15 @@ FragRec(j) == [from |-> j.from, to |-> j.to, id |-> j.id, type |-> j.type, reser
 TInit == /\ tid \in 1..Len(Traces) /\ l = 1 /\ verdict = <<"ok", "">> /\ dl = <<>>
          /\ rc = [x \in {<<Mrec(Traces[tid].msgs[i]), k>> : i \in 1..Len(Traces[tid].msgs), k \in 1..8} |-> 0]
 
+\* unrelated single-frame messages the harness put into the queue ("plain" events): handing them out is genuine, once each
+IsPlain(x)    == \E i \in 1..Len(T.ev) : i <= l /\ T.ev[i].op = "plain" /\ Fr(T.ev[i].fr) = x
+NonPlain(d)   == SelectSeq(d, LAMBDA x : ~IsPlain(x))
+PlainOnce(d)  == \A i \in 1..Len(d) : IsPlain(d[i]) => CountIn(d, d[i]) = 1
+
 Step ==
   /\ verdict[1] = "ok" /\ l <= Len(T.ev) /\ l' = l + 1 /\ tid' = tid
   /\ LET e == T.ev[l] IN
+     \/ /\ e.op = "plain" /\ UNCHANGED <<dl, rc>> /\ verdict' = verdict
      \/ /\ e.op = "recv"
         /\ LET m == Mrec(T.msgs[e.m]) IN
            /\ rc' = [rc EXCEPT ![<<m, e.k>>] = @ + 1]
@@ -29,8 +35,9 @@ Step ==
         /\ dl' = IF e.has THEN Append(dl, Fr(e.res)) ELSE dl
         /\ rc' = rc
         /\ verdict' = IF ~e.has THEN <<"ok", "">>
-                      ELSE IF ~Genuine(dl', TMsgs) THEN <<"C06.Genuine", "dequeued frame is no complete sent message">>
-                      ELSE IF ~AtMostOnce(dl', TMsgs, rc) THEN <<"C06.AtMostOnce", "message delivered more often than its fragments arrived">>
+                      ELSE IF ~Genuine(NonPlain(dl'), TMsgs) THEN <<"C06.Genuine", "dequeued frame is no complete sent message">>
+                      ELSE IF ~PlainOnce(dl') THEN <<"C06.AtMostOnce", "a single-frame message was handed out twice">>
+                      ELSE IF ~AtMostOnce(NonPlain(dl'), TMsgs, rc) THEN <<"C06.AtMostOnce", "message delivered more often than its fragments arrived">>
                       ELSE <<"ok", "">>
 TSpec == TInit /\ [][Step]_tvars
 Report == (verdict[1] # "ok" \/ l > Len(T.ev)) => PrintT("VERDICT " \o ToString(<<tid, l - 1, verdict[1], verdict[2]>>))
